@@ -1,1 +1,3 @@
 import PV.Props.C15
+import PV.Props.C06
+import PV.Props.C07
